@@ -13,6 +13,8 @@ if os.path.exists(op):
 print('| seeded change | file(s) | what it does | own check | other checks raising VIOLATION | undecided (exit 2) |')
 print('|---|---|---|---|---|---|')
 for d in sorted(glob.glob(os.path.join(V, 'seeded', '*'))):
+    if not os.path.isdir(d):
+        continue
     name = os.path.basename(d)
     pid = name.split('_')[0]
     patch = open(os.path.join(d, 'patch.diff')).read()
